@@ -20,8 +20,11 @@
     * the property is FALSE of the faithful model (and of the code) on the tagged vocabulary; each
       mechanism is proved on a concrete witness (replayed on the implementation by the harness):
       C18_explicit_default_delete_counterexample (D17a), C18_default_under_parent_counterexample
-      (D17g), C18_clear_not_dumpable (D17c), C18_path_noref_not_reparseable (D17d),
-      C18_fstr_becomes_eval (D17h), C18_append_with_metadata_not_reparseable (D17i).
+      (D17g), C18_append_with_metadata_not_reparseable and C18_fstr_with_metadata_not_reparseable
+      (D17i); the shortcut-tag mechanism D17k is in AY/Props/C18_Effective.lean.
+    * after the repairs of D17c, D17d, D17h, D17j the corresponding node kinds round-trip exactly:
+      C18_clear_roundtrip, C18_fstr_roundtrip, C18_safe_tag_roundtrip, C18_path_noref_reparse
+      (+ C18_path_source_carried) — the former negations are gone.
   Not proved: the round trip "up to elided-but-ineffective attributes" for the merge-control
   vocabulary under the hypotheses that exclude D17a/D17g (no explicit flag equal to its type default);
   it is covered by the correspondence check (model = code on 3 000+ generated documents per run of the
@@ -116,29 +119,111 @@ theorem C18_default_under_parent_counterexample :
     (getNode (reparsed c18ExUnder) [.str "x", .str "a"]).map eDel = some true := by
   refine ⟨by decide, by decide⟩
 
-/- D17c. A tree that contains `!clear` cannot be dumped. -/
-theorem C18_clear_not_dumpable (f g : Flags) (key : Key) :
-    represent (.comp f .dict [(key, .leaf g .clear)]) = .error .clearCrash := by
-  simp [represent, representWith, representMap, representLeaf, CompKind.isDictFam]
+/-! ### repaired node kinds: exact round trips (D17c, D17h, D17j, D17d) -/
 
-/- D17d. `!path` without reference point (and without metadata) does not re-parse to itself. -/
-theorem C18_path_noref_not_reparseable (f : Flags) (cs : List (Key × Node)) (items : List Raw)
-    (h : representSeq (pushStack {} true (nodeInfo {} (.comp f (.path "") cs))) cs = .ok items)
-    (hkw : (nodeInfo {} (.comp f (.path "") cs)).isEmpty = true) :
-    represent (.comp f (.path "") cs) = .error .pathNoRef := by
-  simp [represent, representWith, CompKind.isDictFam, CompKind.tagged, h, representComp, hkw]
+/- D17c (repaired). `!clear` with any keywords that the dumper keeps (none repeats a default:
+   `noDefaultKw`) is dumped as `!clear[:metadata]` with exactly these keywords, so parsing the dump
+   rebuilds the same node: kind, explicit priority / delete / allow_new / safe, user metadata,
+   source-level flag and file are all equal. -/
+theorem C18_clear_roundtrip (env : Env) (kw : CtorKw) (n : Node) (hk : noDefaultKw env kw = true)
+    (h : construct env (.scalar .clear kw .empty) = .ok n) :
+    represent n = .ok (.scalar .clear kw .empty) ∧
+      ∃ r', represent n = .ok r' ∧ construct env r' = .ok n := by
+  have hn : n = .leaf (mkFlags env kw) .clear := by
+    simp only [construct, constructTD, wrapScalar, adoptBy] at h; cases h; rfl
+  have hr : represent n = .ok (.scalar .clear kw .empty) := by
+    subst hn
+    simp only [represent, representWith, representLeaf, nodeInfo_leaf_top env kw _ hk]
+  exact ⟨hr, _, hr, h⟩
 
-example : represent (.comp {} (.path "") [(.int 0, .leaf {} (.scalar (.str "x")))]) = .error .pathNoRef := rfl
+example : noDefaultKw {} { prio := some 1, md := [("m", .int 1)] } = true := by decide
+example : ∃ n, construct {} (.scalar .clear { prio := some 1, md := [("m", .int 1)] } .empty) = .ok n ∧
+    represent n = .ok (.scalar .clear { prio := some 1, md := [("m", .int 1)] } .empty) :=
+  ⟨_, rfl, (C18_clear_roundtrip {} _ _ (by decide) rfl).1⟩
 
-/- D17h. An f-string node is dumped with the `!eval` tag. -/
-theorem C18_fstr_becomes_eval (f : Flags) (c : String) :
-    representWith {} (.leaf f (.fstr c)) = .ok (.scalar .eval (nodeInfo {} (.leaf f (.fstr c))) (.text c)) := by
-  simp [representWith, representLeaf]
+/- D17h (repaired). An f-string node is dumped with its own tag `!fstr` and parsed back as the same
+   node (kind, code, all flags). -/
+theorem C18_fstr_roundtrip (env : Env) (c : String) (n : Node)
+    (h : construct env (.scalar .fstr {} (.text c)) = .ok n) :
+    represent n = .ok (.scalar .fstr {} (.text c)) ∧
+      ∃ r', represent n = .ok r' ∧ construct env r' = .ok n := by
+  have hn : n = .leaf (mkFlags env {}) (.fstr c) := by
+    simp only [construct, constructTD, wrapScalar, adoptBy] at h; cases h; rfl
+  have hi : nodeInfo {} (.leaf (mkFlags env {}) (.fstr c)) = {} :=
+    nodeInfo_free _ _ ⟨rfl, rfl, rfl, rfl, rfl⟩
+  have hr : represent n = .ok (.scalar .fstr {} (.text c)) := by
+    subst hn
+    simp [represent, representWith, representLeaf, hi, CtorKw.isEmpty, CtorKw.flagCount]
+  exact ⟨hr, _, hr, h⟩
+
+example : represent (okOr (construct {} (.scalar .fstr {} (.text "f'{b}'")))) = .ok (.scalar .fstr {} (.text "f'{b}'")) :=
+  (C18_fstr_roundtrip {} _ _ rfl).1
+
+/- D17j (repaired). In a source loaded with `safe=False` an explicit `safe=True` on a scalar is written
+   as the simple tag `!safe`, which the loader reads back as the keyword `safe=True`: same node. -/
+theorem C18_safe_tag_roundtrip (env : Env) (v : Scalar) (n : Node) (hv : v ≠ .null) (hs : env.dSafe = false)
+    (h : construct env (.scalar .plain { safe := some true } (.lit v)) = .ok n) :
+    represent n = .ok (.scalar .plain { safe := some true } (.lit v)) ∧
+      ∃ r', represent n = .ok r' ∧ construct env r' = .ok n := by
+  have hk : noDefaultKw env { safe := some true } = true := by simp [noDefaultKw, hs]
+  have hn : n = .leaf (mkFlags env { safe := some true }) (.scalar v) := by
+    cases v <;> first
+      | exact absurd rfl hv
+      | (simp only [construct, constructTD, wrapScalar, adoptBy, RVal.toScalar] at h; cases h; rfl)
+  have hr : represent n = .ok (.scalar .plain { safe := some true } (.lit v)) := by
+    subst hn
+    cases v <;> first
+      | exact absurd rfl hv
+      | simp [represent, representWith, representLeaf, nodeInfo_leaf_top env _ _ hk, plainTag, CtorKw.isEmpty,
+          CtorKw.flagCount]
+  exact ⟨hr, _, hr, h⟩
+
+example : ∃ n, construct { dSafe := false } (.scalar .plain { safe := some true } (.lit (.int 5))) = .ok n ∧
+    represent n = .ok (.scalar .plain { safe := some true } (.lit (.int 5))) :=
+  ⟨_, rfl, (C18_safe_tag_roundtrip { dSafe := false } _ _ (by decide) rfl rfl).1⟩
+
+/- D17d (repaired). A `!path` without reference point is written as the mapping
+   `{values, ref_point: '', source_file}`; the `!path` constructor now takes it as keyword arguments,
+   i.e. the re-parse sees the short `!path` over the dumped components. Metadata on such a node
+   (only reachable by inheritance, e.g. a priority from a `!force` ancestor: the tag becomes
+   `!path:<hex>`) is dropped by the constructor and re-inherited from the ancestor. -/
+theorem C18_path_noref_reparse (kw : CtorKw) (items : List Raw) :
+    representComp (.path "") kw items [] = .ok (.seq (.path "") {} items) := by
+  simp [representComp]
+
+/-- `a: !path [x, y]` -/
+def c18ExPath : Raw :=
+  .map .none {} [(.str "a", .seq (.path "") {} [.scalar .none {} (.lit (.str "x")), .scalar .none {} (.lit (.str "y"))])]
+/-- `!force {a: !path [x]}` -/
+def c18ExPathForce : Raw :=
+  .map .plain { prio := some 1 } [(.str "a", .seq (.path "") {} [.scalar .none {} (.lit (.str "x"))])]
+
+-- the whole documents round-trip exactly (every attribute of every node), also below `!force`
+example : construct {} (dumpOr (represent (okOr (construct {} c18ExPath)))) = construct {} c18ExPath := rfl
+example : construct { src := some "/cfg/m.yaml" } (dumpOr (represent (okOr (construct { src := some "/cfg/m.yaml" } c18ExPath))))
+    = construct { src := some "/cfg/m.yaml" } c18ExPath := rfl
+example : construct {} (dumpOr (represent (okOr (construct {} c18ExPathForce)))) = construct {} c18ExPathForce := rfl
+example : represent (okOr (construct {} c18ExPath)) = .ok c18ExPath := rfl
+
+/- The dumped mapping of every `!path` node carries the file the node was written in; parsed from
+   another file (`env`) the node keeps the original one (the file-relative reference points `file`,
+   `parent(n)` keep denoting the same location). The `Raw` tree has no slot for this keyword, so the
+   rule is stated on its own; the harness checks it on the implementation (`moved`). -/
+theorem C18_path_source_carried (env : Env) (f : Flags) (s : String) (h : f.src = some s) :
+    pathSourceOnReparse env f = some s := by
+  simp [pathSourceOnReparse, h]
 
 /- D17i. `!append` with metadata (e.g. a priority inherited from a `!force` ancestor) is written with a
    tag that has no constructor. -/
 theorem C18_append_with_metadata_not_reparseable :
     represent (okOr (construct {} (.map .plain { prio := some 1 } [(.str "a", .seq .append {} [.scalar .none {} (.lit (.int 1))])])))
+      = .error .noMetadataForm := rfl
+
+/- D17i, new facet after the repair of D17h: `!fstr` has no `:metadata` form either, so an f-string
+   below a `!force` ancestor is written as `!fstr:<hex>`, which has no constructor (before the repair
+   it was written as `!eval:<hex>`, which parsed — as an EvalNode). -/
+theorem C18_fstr_with_metadata_not_reparseable :
+    represent (okOr (construct {} (.map .plain { prio := some 1 } [(.str "a", .scalar .fstr {} (.text "f'{b}'"))])))
       = .error .noMetadataForm := rfl
 
 end AY
